@@ -13,6 +13,7 @@ import ast
 
 from ..core import rule, AnalysisError
 from ..engine import flow
+from ..engine import pattern as P
 from ..engine.facts import dotted, const, src, walk_func, str_value, enclosing_stmt, ancestors
 from .common import calls, raise_names, contains
 
@@ -107,7 +108,7 @@ def position_carried(ctx):
     ctx.check(vals.get("lineno") == "self.matched_lineno" and vals.get("pos") == "self.matched_charpos" and vals.get("source") == "self.text" and vals.get("filename") == "self.filename", "lexer-kwargs-values", db.where(lk), "lexer position is %s" % vals, "position of the last match")
     an = db.func("lexer.Lexer.append_node")
     t = src(an)
-    ctx.check("kwargs.setdefault('lineno', self.matched_lineno)" in t and "kwargs.setdefault('pos', self.matched_charpos)" in t and "kwargs.setdefault('source', self.text)" in t and "kwargs['filename'] = self.filename" in t, "node-position", db.where(an), "nodes are not created with the position of their match", "nodes get source/lineno/pos/filename")
+    ctx.check(P.has(an, "$k.setdefault('lineno', self.matched_lineno)") and P.has(an, "$k.setdefault('pos', self.matched_charpos)") and P.has(an, "$k.setdefault('source', self.text)") and P.has(an, "$k['filename'] = self.filename"), "node-position", db.where(an), "nodes are not created with the position of their match", "nodes get source/lineno/pos/filename")
 
 
 MAKO_EXC_OK = {"exceptions.CompileException", "exceptions.SyntaxException", "exceptions.MakoException", "exceptions.NameConflictError",
@@ -179,8 +180,8 @@ def offset_algebra(ctx):
     ctx.check(bool(sup) and any(k.arg == "lineno_offset" and src(k.value) == "lineno_offset" for k in sup[0].keywords), "fragment.offset-passed", db.where(pf), "the offset is not handed to PythonCode", "lineno_offset forwarded")
     pc = db.func("ast.PythonCode.__init__")
     t = src(pc)
-    ctx.check("stripped = code.lstrip()" in t and "lineno_offset += code[:len(code) - len(stripped)].count('\\n')" in t, "code.strip-offset", db.where(pc), "leading blank lines stripped from a block are not added to the line offset", "offset += newlines stripped")
-    ctx.check("pyparser.parse(stripped, 'exec', lineno_offset=lineno_offset, **exception_kwargs)" in t.replace("\n", ""), "code.parse-args", db.where(pc), "PythonCode does not parse the stripped code with the offset", "parse(stripped, lineno_offset=...)")
+    ctx.check(P.has(pc, "$s = $c.lstrip()\n...\n$o += $c[:len($c) - len($s)].count('\\n')"), "code.strip-offset", db.where(pc), "leading blank lines stripped from a block are not added to the line offset", "offset += newlines stripped")
+    ctx.check(P.has(pc, "$s = $c.lstrip()\n...\n$e = pyparser.parse($s, 'exec', lineno_offset=$o, **$k)"), "code.parse-args", db.where(pc), "PythonCode does not parse the stripped code with the offset", "parse(stripped, lineno_offset=...)")
     al = db.func("pyparser._adjust_lineno")
     d = [x for x in walk_func(al) if isinstance(x, ast.Dict)]
     val = None
@@ -190,7 +191,7 @@ def offset_algebra(ctx):
                 val = src(v).replace(" ", "")
     ctx.check(val in ("lineno+lineno_offset+exc_lineno-1", "lineno+lineno_offset+(exc_lineno-1)", "lineno+exc_lineno+lineno_offset-1"), "adjust.formula", db.where(al), "reported line is %s, expected base + offset + parsed - 1" % val, "base + offset + parsed - 1")
     pp = db.func("pyparser.parse")
-    ctx.check("_adjust_lineno(e, lineno_offset, exception_kwargs)" in src(pp), "adjust.used", db.where(pp), "pyparser.parse does not adjust the reported line", "adjusted from the Python error's line")
+    ctx.check(P.has(pp, "_adjust_lineno($e, lineno_offset, exception_kwargs)"), "adjust.used", db.where(pp), "pyparser.parse does not adjust the reported line", "adjusted from the Python error's line")
 
 
 @rule("C11.start-captured", min_instances=6)
@@ -205,7 +206,7 @@ def start_captured(ctx):
     ctx.check(src(saves.get("startcharpos").value) == "self.matched_charpos" if "startcharpos" in saves else False, "scan.save-col", db.where(put), "the start column is not saved before scanning", "startcharpos saved before the loop")
     rs = [r for r in walk_func(put) if isinstance(r, ast.Raise)]
     t = src(rs[0]) if rs else ""
-    ctx.check("'lineno': startlineno" in t and "'pos': startcharpos" in t, "scan.raise-start", db.where(rs[0]) if rs else db.where(put), "an unterminated construct is reported where the scan gave up, not where it began", "raises with the saved start")
+    ctx.check(bool(rs) and "startlineno" in saves and "startcharpos" in saves and P.has(rs[0], "{**$_, 'lineno': startlineno, 'pos': startcharpos}"), "scan.raise-start", db.where(rs[0]) if rs else db.where(put), "an unterminated construct is reported where the scan gave up, not where it began", "raises with the saved start")
     for q, opener in (("lexer.Lexer.match_python_block", "<%"), ("lexer.Lexer.match_expression", "${")):
         fn = db.func(q)
         sv = [s for s in walk_func(fn) if isinstance(s, ast.Assign) and src(s.value).replace(" ", "") in ("(self.matched_lineno,self.matched_charpos)", "self.matched_lineno,self.matched_charpos")]
